@@ -38,6 +38,7 @@ from common import cstr, clist, cbool, copt, cpair, cz, cn
 THEOREMS = [
     'C09_normalize_float_normal_form', 'C09_normalize_float_classes',
     'C09_normalize_float_exponent_padding_refuted', 'C09_normal_form_fixed',
+    'C09_normalize_float_value',
     'C09_normalize_float_idempotent', 'C09_parse_material_density_fixed',
     'C09_parse_material_classes', 'C09_pot_fill_provenance',
     'C09_provenance_head_is_leaf', 'C09_lattice_elements', 'C09_geomcomp_name',
